@@ -66,7 +66,7 @@ def jobs(tier, seed):
     shapes = QUICK_SHAPES if tier == "quick" else THOROUGH_SHAPES
     out = []
     for (m, n, wanted) in shapes:
-        for kind in AC.CLASSES:
+        for kind in AC.BASIC_KINDS:
             for cfg in configs(m, wanted):
                 out.append({"name": "%s/m=%d/n=%d/%s" % (kind, m, n, AC.cfg_name(cfg)), "kind": kind, "m": m, "n": n, "cfg": cfg})
     return out
@@ -83,7 +83,7 @@ def z_placement(kind, m, n, a0, a1, r0, r1):
         "prefix": z3.And(a0 == 0, a1 == m, r0 == 0),
         "suffix": z3.And(a0 == 0, a1 == m, r1 == n),
         "anywhere": z3.And(z3.Or(a0 == 0, r0 == 0), z3.Or(a1 == m, r1 == n)),
-    }[kind]
+    }[kind if not kind.endswith("_fa") else "anywhere"]
     return z3.And(base, rule)
 
 
@@ -197,7 +197,7 @@ def validate(seed):
     cases = [("back", "ACGT", "TTACGTTT"), ("front", "ACGT", "TTACGTTT"), ("anywhere", "ACGTN", "ACGAATT"), ("prefix", "ACG", "ACTTT"), ("suffix", "ACG", "TTACC"),
              ("nonint_back", "TTAGACATAT", "CAGTGGAGTATTAGACA"), ("nonint_front", "CTCCAGCTTAGACATATC", "AGCTTAGACATATCGGG"), ("rightmost_front", "CTGAATT", "GACTGAATTCTGAATTACG")]
     for _ in range(120):
-        kind = r.choice(list(AC.CLASSES))
+        kind = r.choice(AC.BASIC_KINDS)
         m = r.randrange(1, 7)
         n = r.randrange(0, 10)
         cases.append((kind, "".join(r.choice("ACGTACGTNRYX") for _ in range(m)), "".join(r.choice("ACGTacgtNnRX!") for _ in range(n))))
